@@ -28,8 +28,8 @@ def cmpOrMod (op : SrcOp) : Bool :=
     3. a comparison or `%` with an ITEM-enumerator operand is typed but has no opcode in the emitter, so the
        variable form does not compile at all (expr_<op>_emit: EMIT_FAIL / assert(0)) -/
 def excused (r : FoldRow) : Bool :=
-  (r.op == .mul && r.kindA == .long) ||
-  (r.op == .neq && r.kindA == .bool) ||
+  -- (1) long*long on int_value and (2) bool != selecting OP_EQ_INT were repaired by the `fix:` commits
+  -- 6677f2b and 9db5579: those rows are no longer excused (the statement below now covers them)
   (cmpOrMod r.op && (r.kindA == .enumtype || r.kindB == some .enumtype) &&
     !(r.op == .eq && r.kindA == .enumtype && r.kindB == some .enumtype))
 
